@@ -12,6 +12,17 @@ def _run_dill_encoded(payload):
     return res
 
 
+class _TaskFailure:
+    """Marks a task whose function raised in a worker process"""
+
+    def __init__(self, exception):
+        try:
+            dill.loads(dill.dumps(exception))
+        except Exception:
+            exception = RuntimeError(f"{type(exception).__name__}: {exception}")
+        self.exception = exception
+
+
 class ParallelMap:
     """
     Apply functions in parallel, using dill for pickling, inspired by example here
@@ -69,9 +80,13 @@ class ParallelMap:
         f_Z = equilibrium.f_Z
         while True:
             i, function, args, kwargs = task_queue.get()
-            result = function(
-                *args, equilibrium=equilibrium, psi=psi, f_R=f_R, f_Z=f_Z, **kwargs
-            )
+            try:
+                result = function(
+                    *args, equilibrium=equilibrium, psi=psi, f_R=f_R, f_Z=f_Z, **kwargs
+                )
+            except Exception as e:
+                # Always answer the task, otherwise the caller would wait forever
+                result = _TaskFailure(e)
             result_queue.put((i, result))
 
     def __call__(self, function, args_list, **kwargs):
@@ -98,6 +113,17 @@ class ParallelMap:
         for count in range(n_tasks):
             i, this_result = self.result_queue.get()
             result[i] = this_result
+
+        # All tasks have been answered, so the queues are clean for the next call. If
+        # any task failed, raise the error of the first one, as a serial run would.
+        for this_result in result:
+            if isinstance(this_result, _TaskFailure):
+                exception = this_result.exception
+                try:
+                    raise exception
+                finally:
+                    # Do not keep this frame (and so self) alive through the traceback
+                    del exception, this_result, result
 
         if not self.task_queue.empty():
             raise ValueError("Some tasks not finished")
